@@ -140,6 +140,18 @@ def print_assumptions(pid):
     return {"ok": ok, "rc": rc, "theorems": theorems, "assumptions": assum, "log": out[-3000:]}
 
 
+def coqchk(pid):
+    """independent re-check of the compiled property module and everything it depends on; returns
+    (ok, axioms listed by coqchk -o, log tail)"""
+    with common.Lock("coq"):
+        rc, out = sh("timeout 1500 coqchk -silent -o %s FV.%s 2>&1" % (" ".join(qflags()), pid), cwd=COQ, timeout=1600)
+    m = re.search(r"\* Axioms:\s*(.*?)\n\s*\n", out, re.S)
+    axioms = (m.group(1).strip() if m else "?")
+    unsafe = [l for l in ("type-in-type", "unsafe (co)fixpoints", "positivity is assumed")
+              if not re.search(re.escape(l) + r":\s*<none>", out)]
+    return rc == 0 and m is not None and not unsafe, axioms, out[-1500:]
+
+
 # axioms of the standard library that a theorem may depend on (each is named in the evidence)
 STDLIB_AXIOMS = ("functional_extensionality_dep", "proof_irrelevance", "classic", "JMeq_eq", "eq_rect_eq")
 
